@@ -224,8 +224,10 @@ class Mode(LogMixin):
 
         self._setup_device_control_events()
 
+        # do not hand the queue of the event which started this mode to the handlers of the starting event
+        starting_kwargs = {key: value for key, value in kwargs.items() if key != "queue"}
         self.machine.events.post_queue(event=MODE_STARTING_EVENT_TEMPLATE.format(self.name),
-                                       callback=self._started, **kwargs)
+                                       callback=self._started, **starting_kwargs)
         '''event: mode_(name)_starting
 
         desc: The mode called "name" is starting.
